@@ -172,7 +172,7 @@ var (
 			return newRule(log)
 		},
 		"file": func(log map[string]string) Rule {
-			if log["operation"] == "change_onexec" {
+			if log["operation"] == "change_onexec" || log["operation"] == "change_profile" {
 				return newChangeProfileFromLog(log)
 			} else {
 				return newFileFromLog(log)
@@ -247,7 +247,7 @@ func (p *Profile) AddRule(log map[string]string) {
 			p.Rules = append(p.Rules, newLogMountMap[log["operation"]](log))
 		case log["rlimit"] != "":
 			p.Rules = append(p.Rules, newRlimitFromLog(log))
-		case log["operation"] == "change_onexec":
+		case log["operation"] == "change_onexec", log["operation"] == "change_profile":
 			p.Rules = append(p.Rules, newChangeProfileFromLog(log))
 		case log["name"] != "" && log["requested_mask"] != "" && log["fsuid"] != "":
 			p.Rules = append(p.Rules, newFileFromLog(log))
